@@ -300,6 +300,7 @@ def run(ctx, obs, prop: str):
     obs.analysed['sweep_loop_state'] = loop_state(ctx, obs, pre)
     obs.analysed['sweep_loop_carry'] = loop_carry(ctx, obs, pre)
     obs.analysed['sweep_loop_shadow'] = loop_shadow(ctx, obs, pre)
+    obs.analysed['sweep_lossy_guards'] = lossy_guard(ctx, obs, pre + EXTRA_SELECT_SCOPE.get(prop, []))
     obs.analysed['sweep_triangular_solves'] = triangular_solve(ctx, obs, pre)
     # C15: a pair without a valid product is NaN by contract, so the values combined after the compiled kernel may be NaN and a
     # dense 0/1 indicator product would spread one NaN over all pairs; elsewhere the indicator products act on NaN-free vectors
@@ -1300,4 +1301,60 @@ def triangular_solve(ctx, obs, prefixes: Sequence[str], rule='TRI') -> int:
                         f'diagonal and returns the solution of a different system', where(prog, f, c))
             else:
                 obs.unk(rule, q, con, f'origin of `{norm(a)[:40]}` not recognised', where(prog, f, c))
+    return n
+
+
+# ----------------------------------------------------------------------------------------------------- LOSSY-GUARD
+_PROJECTIONS = {'diag', 'diagonal', 'len', 'trace', 'min', 'max', 'sum', 'mean', 'std', 'var', 'any', 'all', 'unique', 'set', 'sorted',
+                'amin', 'amax', 'ptp', 'count_nonzero', 'allclose', 'isclose'}
+_PROJ_ATTRS = {'shape', 'ndim', 'size', 'dtype'}
+
+
+def lossy_guard(ctx, obs, prefixes: Sequence[str], rule='LOSSY-GUARD') -> int:
+    """An argument is DISCARDED (`p = None`, replaced by a constant) under a test that only looked at a projection of it - its
+    diagonal, its length, its shape, a sum, the set of its entries.  Whatever the projection does not show (the off-diagonal
+    covariances of an "isotropic" matrix with constant diagonal, the order of equally many labels) is thrown away with it.  Tests on
+    the argument itself (`p is None`, `isinstance(p, ..)`, `p == 'x'`) are not projections."""
+    prog = ctx.prog
+    n = 0
+    for q, f in sorted(prog.functions.items()):
+        if not _in_scope(q, prefixes) or f.parent is not None:
+            continue
+        params = set(f.params)
+        for st in ast.walk(f.node):
+            if not isinstance(st, ast.If):
+                continue
+            # parameters read by the test, and how
+            reads = {}
+            parents = {}
+            for p_ in ast.walk(st.test):
+                for ch in ast.iter_child_nodes(p_):
+                    parents[id(ch)] = p_
+            for x in ast.walk(st.test):
+                if isinstance(x, ast.Name) and x.id in params and isinstance(x.ctx, ast.Load):
+                    p_ = parents.get(id(x))
+                    how = 'whole'
+                    if isinstance(p_, ast.Call) and _leafname(p_.func) in _PROJECTIONS and (x in p_.args or (isinstance(p_.func, ast.Attribute) and p_.func.value is x)):
+                        how = 'proj:' + _leafname(p_.func)
+                    elif isinstance(p_, ast.Attribute) and p_.attr in _PROJ_ATTRS:
+                        how = 'proj:' + p_.attr
+                    elif isinstance(p_, ast.Attribute):
+                        gp = parents.get(id(p_))
+                        if isinstance(gp, ast.Call) and gp.func is p_ and p_.attr in _PROJECTIONS:
+                            how = 'proj:' + p_.attr
+                    elif isinstance(p_, ast.Subscript) and p_.value is x and isinstance(p_.slice, ast.Constant):
+                        how = 'proj:[%r]' % (p_.slice.value,)
+                    reads.setdefault(x.id, set()).add(how)
+            for pname, hows in reads.items():
+                if 'whole' in hows:
+                    continue
+                drops = [s2 for s2 in st.body if isinstance(s2, ast.Assign) and len(s2.targets) == 1 and isinstance(s2.targets[0], ast.Name)
+                         and s2.targets[0].id == pname and isinstance(s2.value, ast.Constant)]
+                if not drops:
+                    continue
+                n += 1
+                obs.bad(rule, q, f'`{pname}` is only discarded on a test that looks at all of it',
+                        f'`{norm(st.test)[:70]}` reads `{pname}` through {sorted(h[5:] for h in hows)} only, and then `{norm(drops[0])}` throws the '
+                        f'argument away: everything the projection does not show (off-diagonal entries, order, individual values) is lost '
+                        f'with it', where(prog, f, st))
     return n
